@@ -17,6 +17,9 @@ type SubscriptionService struct {
 	// pub sub stuff
 	Mu   sync.Mutex
 	Subs map[uint32]*Subscription
+
+	// lastSubID is the id of the subscription created last. It is protected by Mu.
+	lastSubID uint32
 }
 
 // get rid of all references to a subscription and all monitored items that are pointed at this subscription.
@@ -60,7 +63,12 @@ func (s *SubscriptionService) CreateSubscription(sc *uasc.SecureChannel, r ua.Re
 	s.Mu.Lock()
 	defer s.Mu.Unlock()
 
-	newsubid := uint32(len(s.Subs)) + 1
+	// ids are never reused while a subscription with that id may still exist
+	s.lastSubID++
+	if s.lastSubID == 0 {
+		s.lastSubID = 1
+	}
+	newsubid := s.lastSubID
 
 	if s.srv.cfg.logger != nil {
 		s.srv.cfg.logger.Info("New Sub %d for %v", newsubid, sc.RemoteAddr())
